@@ -88,6 +88,13 @@ func (pass *InlineObjectsWithTypes) processRef(_ *Visitor, _ *ast.Schema, def as
 	}
 
 	typeDef := pass.objectsToInline.Get(def.Ref.String()).DeepCopy()
+	// the inlined type takes the place of the reference: it stays as optional as the reference was
+	if def.Nullable {
+		typeDef.Nullable = true
+	}
+	if def.Default != nil {
+		typeDef.Default = def.Default
+	}
 	typeDef.AddToPassesTrail(fmt.Sprintf("InlineObjectsWithTypes[original=%s]", def.Ref.String()))
 
 	return typeDef, nil
